@@ -16,6 +16,11 @@ Model for C16: `internal/goembed/goembed.go`.
 
 `Cfg.nonDirCheck = false` is the code as it stands; `true` is the code with `fixes/C16-1.diff`
 (cmd/go's "in non-directory" test in `CheckPath`).
+
+Not rendered literally (see design/C16.md): the `dirOK` cache of `CheckPath` and the `have`/`pid`
+counters of `ResolvePatterns` (any failed test aborts the whole resolution, so a cache hit only
+skips tests that passed before; `listCount == 0` is "this pattern listed no file"), and the
+package directory's own path (assumed free of glob metacharacters; `pkgDir` is the tree's root).
 -/
 namespace LlgoVerif.Embed
 
